@@ -1,7 +1,7 @@
 """C12 - signature encodings bijective, fixed-size, strictly decoded.  DESIGN.md section 3/C12."""
 import random
 
-from vlib import core, sigcommon
+from vlib import core, sigcommon, ecdsadrv
 from vlib.core import b2l, n2l
 
 
@@ -33,6 +33,9 @@ def der_mutations(base, rnd, subs):
                b"\x84\x00\x00\x00" + bytes([len(body) & 0xFF]), b"\x85\x01\x00\x00\x00\x00", b"\xff"):
         out.add(b"\x30" + lf + body)
     return out
+
+
+ROT = [0]
 
 
 def outcome_bytes(f):
@@ -83,6 +86,13 @@ def run(ctx):
                 raw = f(rr, s, n)
                 ev({"op": "dec", "dec": enc, "n": n2l(n), "inp": out["v"], "out": sigcommon.outcome_sig(decs[enc], raw, n)},
                    "sigdecode_%s(sigencode_%s(%d, %d), %d)" % (enc, enc, rr, s, n))
+                # the same bytes in another bytes-like container (bytearray, memoryview, arrays with items of 1, 2, 4 bytes)
+                ROT[0] += 1
+                alt = [ecdsadrv.carrier(x, ROT[0] + j) for j, x in enumerate(raw)] if enc == "strings" else ecdsadrv.carrier(raw, ROT[0])
+                kind = type(alt[0] if enc == "strings" else alt).__name__
+                if kind != "bytes":
+                    ev({"op": "dec", "dec": enc, "n": n2l(n), "inp": out["v"], "out": sigcommon.outcome_sig(decs[enc], alt, n)},
+                       "sigdecode_%s(sigencode_%s(%d, %d) held in a %s, %d)" % (enc, enc, rr, s, kind, n))
 
     def add_dec(dec, n, inp):
         if dec == "strings":
@@ -91,6 +101,13 @@ def run(ctx):
             j = b2l(inp)
         ev({"op": "dec", "dec": dec, "n": n2l(n), "inp": j, "out": sigcommon.outcome_sig(decs[dec], inp, n)},
            "sigdecode_%s(%r, %d)" % (dec, inp, n), ("dec", dec, n, repr(inp)))
+        ROT[0] += 1
+        if ROT[0] % 3 == 0:
+            alt = [ecdsadrv.carrier(x, ROT[0] + jx) for jx, x in enumerate(inp)] if dec == "strings" else ecdsadrv.carrier(inp, ROT[0])
+            if not isinstance(alt, bytes):
+                ev({"op": "dec", "dec": dec, "n": n2l(n), "inp": j, "out": sigcommon.outcome_sig(decs[dec], alt, n)},
+                   "sigdecode_%s(%r held in %s, %d)" % (dec, inp, type(alt).__name__ if dec != "strings" else
+                                                        [type(x).__name__ for x in alt], n))
 
     def add_helpers(n, v):
         l = (len("%x" % n) + 1) // 2
